@@ -66,7 +66,8 @@ func (sh *blobShape) canon(fn *ssa.Function) ssax.Canon {
 	recv := recvParam(fn)
 	var canon ssax.Canon
 	canon = func(v ssa.Value) (ssax.Term, bool) {
-		v = ssax.StripIntConv(v)
+		// a value of a guard helper whose facts were imported (ssax.ImportGuards) is read through the call's arguments
+		v = ssax.StripIntConv(ssax.SubstValue(ssax.StripIntConv(v)))
 		if k, ok := ssax.ConstInt(v); ok {
 			return ssax.Term{IsConst: true, Const: k}, true
 		}
@@ -75,11 +76,11 @@ func (sh *blobShape) canon(fn *ssa.Function) ssax.Canon {
 			return ssax.Term{Sym: paramSym(x)}, true
 		case *ssa.Call:
 			if callee := ssax.StaticCallee(x); callee != nil {
-				if callee.Name() == "Len" && callee.Signature.Recv() != nil && len(x.Call.Args) == 1 && x.Call.Args[0] == ssa.Value(recv) {
+				if callee.Name() == "Len" && callee.Signature.Recv() != nil && len(x.Call.Args) == 1 && ssax.SubstValue(x.Call.Args[0]) == ssa.Value(recv) {
 					return ssax.Term{Sym: "LEN(recv)"}, true
 				}
 				if callee.Pkg != nil && callee.Pkg.Pkg.Path() == "sync/atomic" && strings.HasPrefix(callee.Name(), "Load") {
-					if fa, ok := x.Call.Args[0].(*ssa.FieldAddr); ok && fa.X == ssa.Value(recv) && ssax.FieldName(fa) == sh.lenField {
+					if fa, ok := x.Call.Args[0].(*ssa.FieldAddr); ok && ssax.SubstValue(fa.X) == ssa.Value(recv) && ssax.FieldName(fa) == sh.lenField {
 						return ssax.Term{Sym: "LEN(recv)"}, true
 					}
 				}
@@ -94,8 +95,10 @@ func (sh *blobShape) canon(fn *ssa.Function) ssax.Canon {
 }
 
 func (sh *blobShape) lenOf(x ssa.Value, recv *ssa.Parameter) string {
-	if recv != nil && sh.dataField != "" && isLoadOfField(x, recv, sh.dataField) {
-		return "LEN(recv)"
+	if recv != nil && sh.dataField != "" {
+		if base, _, ok := ssax.FieldLoad(x); ok && ssax.SubstValue(base) == ssa.Value(recv) && isLoadOfField(x, base, sh.dataField) {
+			return "LEN(recv)"
+		}
 	}
 	return "len:" + x.Name()
 }
@@ -222,7 +225,7 @@ func r19SliceBacked(c *core.Ctx, p *load.Program, sh *blobShape) {
 					c.OKTrivial("R19.1", key, p.Pos(x.Pos()), "constant bounds")
 					return
 				}
-				missing := sliceMissing(ssax.FactsAtInstr(x), canon, sh, x, recv)
+				missing := sliceMissing(ssax.ImportGuards(ssax.FactsAtInstr(x), p.InModule), canon, sh, x, recv)
 				if len(missing) == 0 {
 					c.OK("R19.1", key, p.Pos(x.Pos()), "bounds entailed by dominating guards")
 				} else {
@@ -234,7 +237,7 @@ func r19SliceBacked(c *core.Ctx, p *load.Program, sh *blobShape) {
 					c.OKTrivial("R19.1", key, p.Pos(x.Pos()), "constant length")
 					return
 				}
-				b := ssax.NewBounds(ssax.FactsAtInstr(x), canon)
+				b := ssax.NewBounds(ssax.ImportGuards(ssax.FactsAtInstr(x), p.InModule), canon)
 				zero := ssax.Term{IsConst: true}
 				ok := false
 				desc := ""
@@ -267,6 +270,9 @@ func r19SliceBacked(c *core.Ctx, p *load.Program, sh *blobShape) {
 				}
 				key := tk + "." + mn + "|neg-guard:" + prm.Name()
 				g := findNegGuard(fn, prm, canon)
+				if g == nil {
+					g = negGuardInHelper(p, sh, fn, prm)
+				}
 				if g == nil {
 					c.Bad("R19.1", key, p.Pos(fn.Pos()), fmt.Sprintf("%s: no guard rejects a negative %s with an error", fname(fn), prm.Name()))
 					continue
@@ -401,6 +407,43 @@ func findNegGuard(fn *ssa.Function, prm *ssa.Parameter, canon ssax.Canon) *ssa.I
 			}
 			if _, _, isErr := blockReturnsError(b.Succs[branch]); isErr {
 				found = ifi
+			}
+		}
+	}
+	return found
+}
+
+// negGuardInHelper: prm is handed to a guard helper of the module whose error result is tested in fn (the failing
+// edge returns an error) and which itself rejects a negative value of the corresponding parameter; the If in fn that
+// tests the helper's error is the guard.
+func negGuardInHelper(p *load.Program, sh *blobShape, fn *ssa.Function, prm *ssa.Parameter) *ssa.If {
+	var found *ssa.If
+	for _, b := range fn.Blocks {
+		ifi, ok := b.Instrs[len(b.Instrs)-1].(*ssa.If)
+		if !ok || found != nil {
+			continue
+		}
+		for branch := 0; branch < 2; branch++ {
+			cnd, val := ssax.StripNot(ifi.Cond, branch == 0)
+			x, eq, isNil := ssax.NilTest(cnd)
+			if !isNil || eq == val || !ssax.IsErrorType(x.Type()) {
+				continue // need the edge on which the error is non-nil
+			}
+			call := callProducing(x)
+			if call == nil {
+				continue
+			}
+			callee := ssax.StaticCallee(call)
+			if callee == nil || callee.Blocks == nil || !p.InModule(callee) || len(callee.Params) != len(call.Call.Args) {
+				continue
+			}
+			if _, _, isErr := blockReturnsError(b.Succs[branch]); !isErr {
+				continue
+			}
+			for i, a := range call.Call.Args {
+				if ssax.StripIntConv(a) == ssa.Value(prm) && findNegGuard(callee, callee.Params[i], sh.canon(callee)) != nil {
+					found = ifi
+				}
 			}
 		}
 	}
@@ -692,6 +735,35 @@ func guardSets(sh *blobShape) map[string][]string {
 				}
 				if g := normGuard(bo, val, canon); g != "" {
 					set[g] = true
+				}
+				// the error of a guard helper handed on: the helper's own refusals count, read through the arguments
+				if x, eq, isNil := ssax.NilTest(cnd); isNil && eq != val && ssax.IsErrorType(x.Type()) {
+					if call := callProducing(x); call != nil {
+						if callee := ssax.StaticCallee(call); callee != nil && callee.Blocks != nil && callee.Pkg == fn.Pkg && len(callee.Params) == len(call.Call.Args) {
+							subst := map[ssa.Value]ssa.Value{}
+							for i, prm := range callee.Params {
+								subst[prm] = call.Call.Args[i]
+							}
+							hc := ssax.Fact{Subst: subst}.Canon(canon)
+							for _, hb := range callee.Blocks {
+								hif, ok := hb.Instrs[len(hb.Instrs)-1].(*ssa.If)
+								if !ok {
+									continue
+								}
+								for hbr := 0; hbr < 2; hbr++ {
+									if _, _, isErr := blockReturnsError(hb.Succs[hbr]); !isErr {
+										continue
+									}
+									hcnd, hval := ssax.StripNot(hif.Cond, hbr == 0)
+									if hbo, ok := hcnd.(*ssa.BinOp); ok {
+										if g := normGuard(hbo, hval, hc); g != "" {
+											set[g] = true
+										}
+									}
+								}
+							}
+						}
+					}
 				}
 			}
 		}
@@ -1034,17 +1106,20 @@ func r19SameSection(c *core.Ctx, p *load.Program, sh *blobShape, rule string) {
 			L := sh.lenOf(x.X, recv)
 			var outside []string
 			var inside []ssax.Fact
-			all := ssax.FactsAtInstr(x)
+			all := ssax.ImportGuards(ssax.FactsAtInstr(x), p.InModule)
 			for _, f := range all {
 				keep := true
 				if bo, ok := f.Cond.(*ssa.BinOp); ok {
 					for _, side := range []ssa.Value{bo.X, bo.Y} {
-						t, ok := canon(side)
+						t, ok := f.Canon(canon)(side)
 						if !ok || t.Sym != L {
 							continue
 						}
-						// the instruction that read the length
+						// the instruction that read the length (for a guard helper: the call that ran it)
 						v := ssax.StripIntConv(side)
+						if f.Via != nil {
+							v = f.Via
+						}
 						if ri, ok := v.(ssa.Instruction); ok && !held(ri) {
 							outside = append(outside, p.Pos(ri.Pos()))
 							keep = false
